@@ -50,7 +50,19 @@ struct RTA
 struct Alpha
 {
 	std::vector<int> rank;
+	// optional: symbol i is WRITTEN under the name of symbol alias[i] (one name used with two ranks — legal Timbuk;
+	// the explicit encoding keeps (name, rank) pairs apart, the bottom-up symbolic encoding has one code for the name)
+	std::vector<int> alias;
 	size_t size() const { return rank.size(); }
+	int nameOf(int i) const { return (static_cast<size_t>(i) < alias.size() && alias[i] >= 0) ? alias[i] : i; }
+	// symbol index of a rule written as s<k> with n children
+	int resolve(int k, size_t n) const
+	{
+		if (alias.empty()) return k;
+		if (k >= 0 && static_cast<size_t>(k) < rank.size() && rank[k] == static_cast<int>(n) && nameOf(k) == k) return k;
+		for (size_t j = 0; j < rank.size(); ++j) if (nameOf(static_cast<int>(j)) == k && rank[j] == static_cast<int>(n)) return static_cast<int>(j);
+		return k;
+	}
 };
 
 typedef std::vector<uint64_t> MTuple; // one bit mask per automaton
@@ -327,14 +339,14 @@ inline RTA trimRM(const RTA& a)
 inline std::string toTimbuk(const RTA& a, const Alpha& al, const std::string& name = "A", const char* stPrefix = "q")
 {
 	std::ostringstream os; os << "Ops";
-	for (size_t i = 0; i < al.rank.size(); ++i) if (al.rank[i] >= 0) os << " s" << i << ":" << al.rank[i];
+	for (size_t i = 0; i < al.rank.size(); ++i) if (al.rank[i] >= 0) os << " s" << al.nameOf(static_cast<int>(i)) << ":" << al.rank[i];
 	os << "\nAutomaton " << name << "\nStates";
 	for (St s : a.states()) os << " " << stPrefix << s;
 	os << "\nFinal States"; for (St f : a.fin) os << " " << stPrefix << f;
 	os << "\nTransitions\n";
 	for (auto& r : a.rules)
 	{
-		os << "s" << r.sym;
+		os << "s" << al.nameOf(r.sym);
 		if (!r.ch.empty()) { os << "("; for (size_t j = 0; j < r.ch.size(); ++j) { if (j) os << ","; os << stPrefix << r.ch[j]; } os << ")"; }
 		os << " -> " << stPrefix << r.par << "\n";
 	}
